@@ -315,6 +315,11 @@ def run(chk):
             if v in ('n/a', 'late'):
                 chk.count('skipped:' + v)
                 continue
+            if v and fault[0] in ('stop', 'assoc-kill') and common.timing_verdict(v):
+                # real threads, real seconds: counts only if it reproduces twice more
+                if not all(Run(convs[name], fault).go() for _ in range(2)):
+                    chk.count('timing-verdict-not-reproduced')
+                    continue
             if v:
                 chk.violation('C13:%s:%s' % (fault[0], v[:25]),
                               '%s, %s at turn %d offset %d: %s' % (name, fault[0], fault[1], fault[2], v),
